@@ -900,7 +900,7 @@ fn parse_mapping(mapping: &Mapping) -> crate::Result<Expression> {
                             Box::new(Expression::Integer(i)),
                         )
                     }
-                } else if let Some(i) = n.as_f64() {
+                } else if let (true, Some(i)) = (n.is_f64(), n.as_f64()) {
                     if let Some(ModSym::Int) = misc {
                         return Err(crate::error::parse_invalid_ident(format!(
                             "float cannot be cast into an integer, encountered - {:?}",
@@ -1196,7 +1196,7 @@ fn parse_mapping(mapping: &Mapping) -> crate::Result<Expression> {
                                     ));
                                 }
                                 continue;
-                            } else if let Some(i) = n.as_f64() {
+                            } else if let (true, Some(i)) = (n.is_f64(), n.as_f64()) {
                                 if let Some(ModSym::Int) = misc {
                                     return Err(crate::error::parse_invalid_ident(format!(
                                         "float cannot be cast into an integer, encountered - {:?}",
